@@ -76,7 +76,15 @@ KEY_GROUPS = [     # keys that Python compares equal sit in one group together w
     [["y", "foo"], ["s", "foo"], ["y", "a"], ["c", "a"]],
     [["r", 1e100], ["r", 1e-07], ["i", 100], ["i", 17]],
     [["i", 3], ["i", 5], ["i", 7], ["r", 3.0]],
+    # near twins: reals that are different keys bit for bit but "equal" under Klong's tolerant
+    # real comparison (Match / numpy.isclose, rtol 1e-5, atol 1e-8) - a finite map keeps them apart
+    [["r", 1.5], ["r", 1.500001], ["r", 1.4999999], ["i", 1]],
+    [["i", 2], ["r", 2.00001], ["r", 2.0], ["r", 1.99999]],
+    [["r", 0.3], ["r", 0.1 + 0.2], ["r", 0.1], ["r", 0.2]],
+    [["i", 0], ["r", 1e-09], ["r", 0.0], ["r", -1e-09]],
+    [["i", 100000], ["r", 100000.5], ["r", 99999.5], ["r", 100000.0]],
 ]
+NEAR_TWIN_GROUPS = KEY_GROUPS[-5:]
 
 VALUES = [
     ["i", 0], ["i", -3], ["i", 17], ["i", 1], ["r", 2.5], ["r", -0.5], ["r", 1e-07], ["r", 1e100],
@@ -147,6 +155,8 @@ def src(v, in_list):
     if kind == "i":
         s = str(int(p))
     elif kind == "r":
+        if float(p) == 0.1 + 0.2 and not in_list:
+            return "(0.1+0.2)"          # a COMPUTED real key: 0.30000000000000004, not the key 0.3
         s = repr(float(p))
     elif kind == "c":
         return "0c" + p
@@ -476,6 +486,8 @@ class Real:
 
 def make_pool(rng):
     groups = rng.sample(KEY_GROUPS, 2)
+    if rng.random() < 0.25:
+        groups[0] = rng.choice(NEAR_TWIN_GROUPS)
     pool = []
     for g in groups:
         pool += rng.sample(g, min(len(g), 3))
@@ -898,6 +910,23 @@ BUILTIN_HISTORIES = [
      dict(op="join", side="R", form="lit", d="dc", k=["s", "k"], v=["i", 1], into=None),
      dict(op="lit", x="dc", ps=[]),
      dict(op="size", d="dc")],
+    # near-twin real keys: different keys for join / remove / size / each, so also for find
+    [dict(op="lit", x="da", ps=[[["r", 1.5], ["i", 10]], [["r", 1.500001], ["i", 20]], [["i", 2], ["i", 30]],
+                                [["r", 0.3], ["i", 40]]]),
+     dict(op="size", d="da"),
+     dict(op="find", d="da", k=["r", 1.500001], into=None),
+     dict(op="remove", d="da", k=["r", 1.500001], into=None),
+     dict(op="find", d="da", k=["r", 1.500001], into=None),
+     dict(op="find", d="da", k=["r", 1.5], into=None),
+     dict(op="find", d="da", k=["r", 2.00001], into=None),
+     dict(op="find", d="da", k=["r", 2.0], into=None),
+     dict(op="find", d="da", k=["r", 0.1 + 0.2], into=None),
+     dict(op="join", side="L", form="cat", d="da", k=["r", 0.1 + 0.2], v=["i", 50], into=None),
+     dict(op="find", d="da", k=["r", 0.3], into=None),
+     dict(op="size", d="da"),
+     dict(op="remove", d="da", k=["r", 0.3], into=None),
+     dict(op="find", d="da", k=["r", 0.3], into=None),
+     dict(op="each", d="da")],
     # a dictionary stored as a value, found again and updated through that path
     [dict(op="lit", x="da", ps=[]),
      dict(op="lit", x="db", ps=[[["i", 0], ["c", "x"]]]),
